@@ -373,6 +373,7 @@ func extractC11() *lean {
 		{"revokeStmts", c11Method(issF, "StatusList2021", "Revoke")},
 		{"credentialStmts", c11Method(issF, "StatusList2021", "Credential")},
 		{"updateCredentialStmts", c11Method(issF, "StatusList2021", "updateCredential")},
+		{"updateStmts", c11Method(verF, "StatusList2021", "update")},
 		{"issuerRevoke", c11Method(iF, "issuer", "Revoke")},
 		{"issuerRevokeStatusList", c11Method(iF, "issuer", "revokeStatusList")},
 		{"issuerRevokeDIDNuts", c11Method(iF, "issuer", "revokeDIDNuts")},
@@ -435,7 +436,18 @@ func c11Call(e ast.Expr) string {
 	case *ast.ParenExpr:
 		return "(" + c11Call(x.X) + ")"
 	case *ast.CompositeLit:
-		return c11Call(x.Type) + "{…}"
+		if len(x.Elts) > 6 {
+			return c11Call(x.Type) + "{…}"
+		}
+		var el []string
+		for _, y := range x.Elts {
+			el = append(el, c11Call(y))
+		}
+		return c11Call(x.Type) + "{" + strings.Join(el, ",") + "}"
+	case *ast.KeyValueExpr:
+		return c11Call(x.Key) + ":" + c11Call(x.Value)
+	case *ast.ArrayType:
+		return "[]" + c11Call(x.Elt)
 	}
 	return exprString(e)
 }
